@@ -54,7 +54,9 @@ def check(run):
             text = (f[0], f[1], f[2], float(a)) if run.rng.random() < 0.7 else [f[0], f[1], f[2], float(a)]
             af = Fraction(float(a)); fg = [Fraction(x) for x in f]; kind = "rgba_tuple"
         bk = run.rng.random()
-        bgv = ("#%02x%02x%02x" % b) if bk < 0.4 else b if bk < 0.7 else "rgb(%d, %d, %d)" % b
+        bgv = ("#%02x%02x%02x" % b) if bk < 0.35 else b if bk < 0.6 else "rgb(%d, %d, %d)" % b if bk < 0.85 else list(b)
+        if bk >= 0.93 and all(int(round((x / 255.0) * 255.0)) == x for x in b) and not all(x in (0, 255) for x in b):
+            bgv = tuple(x / 255.0 for x in b)      # a background given as normalised floats
         cases.append((text, bgv, b, fg, af, kind))
     mo = run_lines([valenc.pair_line(c[0], c[1], False) for c in cases], chunks=8)
     for (text, bgv, b, fg, af, kind), m in zip(cases, mo):
